@@ -978,6 +978,12 @@ class NetworkGraph(AbstractBaseIR):
         # step 4: define target variable as operator output
         args[tvar] = tval
         args[tvar]['vtype'] = 'variable'
+        if self[tnode][top]['inputs'].get(tvar, {}).get('sources'):
+            # operators of the target node feed this variable as well: the edge input is one term of that sum and starts
+            # from zero (the declared default only stands in for a variable that nothing drives)
+            args[tvar] = dict(tval)
+            v0 = np.zeros_like(np.asarray(tval['value'], dtype=float))
+            args[tvar]['value'] = v0.tolist() if isinstance(tval['value'], list) else (v0 if v0.shape else float(v0))
 
         # step 5: add edge operator to target node
         if tnode not in in_edge_indices:
